@@ -106,6 +106,14 @@ func Param(name string) int {
 	return int(v)
 }
 
+// ParamOr is Param with a default for jobs that do not set the parameter.
+func ParamOr(name string, def int) int {
+	if v, ok := cur.c.Params[name]; ok {
+		return int(v)
+	}
+	return def
+}
+
 func Assume(cond bool) {
 	if !cond {
 		panic(stop{"assume-failed", "", ""})
